@@ -258,10 +258,10 @@ impl Scenario for C03S {
     }
     fn count(&self, tier: Tier, variant: &str) -> u64 {
         match (tier, variant) {
-            (Tier::Quick, "os") => 12000,
-            (Tier::Quick, _) => 3000,
-            (Tier::Thorough, "os") => 600_000,
-            (Tier::Thorough, _) => 150_000,
+            (Tier::Quick, "os") => 50_000,
+            (Tier::Quick, _) => 12_000,
+            (Tier::Thorough, "os") => 2_000_000,
+            (Tier::Thorough, _) => 500_000,
         }
     }
     fn rule(&self) -> &'static str {
